@@ -208,6 +208,9 @@ func expand(ex *Executor, p *plan.Plan, res *Result, agg *Agg) []*plan.Plan {
 			if L > 70000 && rs.Srcs[0].Frag.Policy == "small" {
 				rs.Srcs[0].Frag.Policy = "rand"
 			}
+			if cr.Chance(1, 8) {
+				rs.Srcs[0].Bufio = cr.PickInt(16, 64, 4096)
+			}
 			if cr.Chance(1, 3) {
 				rs.Ops = []plan.ROp{{Op: "writeto"}}
 			} else {
